@@ -108,6 +108,7 @@ def storeMatches (st : Store) (db : Db) : Bool :=
 def fromSize (st : Store) : From → Nat
   | .table t => (st.getD t default).rows.length + 1
   | .join _ l r _ => fromSize st l * fromSize st r
+  | .derived f _ _ => fromSize st f
 
 def planDefects (flags : List String) : Plan.Defects :=
   { joinCommuteKeepsIndices := flags.contains "joinCommuteKeepsIndices"
